@@ -1092,7 +1092,7 @@ fn get_mean(raw_output_buffer: &Vec<HashMap<String, String>>, buffer_key: &Strin
     let sum = get_buffer_sum(raw_output_buffer, buffer_key);
     let size = raw_output_buffer.len();
 
-    (sum / size) as f64
+    sum as f64 / size as f64
 }
 
 /// Get the sum of all values in the buffer, based on the buffer key.
